@@ -9,7 +9,7 @@ def run(chk):
     chk.rule = ("(fabric) three whole networks; shutdown of one (explicit, two concurrent explicit calls, or dropping the last handle) at seeded instants with RPCs in both "
                 "directions (some with long-running handlers or large bodies), an outbound dial to a dead address, concurrent connect calls; checked: completion within the "
                 "idle-wait bound, closed / no peers / weak reference dead, every service clone dropped, subscribers get LostPeer events then end-of-stream, remote peers observe "
-                "the disconnect, every pending or later API call returns, no panic; (T) the manager / handler / API events of every run (H4b trace points) are replayed on Shutdown.v by ShutdownTrace.trun: it must accept them, end in MDone with nothing left and agree on LostPeer count and answered calls; (real time) runtime teardown with live handles on a multi-thread runtime under a watchdog, incl. re-binding the address after shutdown with idle-wait bounds of 0-200 ms; "
+                "the disconnect, every pending or later API call returns, no panic; (T) the manager / handler / API events of every run (H4b trace points) are replayed on Shutdown.v by ShutdownTrace.trun: it must accept them, end in MDone with nothing left and agree on LostPeer count and answered calls; (real time) runtime teardown with live handles on a multi-thread runtime under a watchdog, incl. re-binding the address after shutdown with idle-wait bounds of 0-200 ms, and shutdown while a request is inside a handler's blocking section (every service clone must be gone when it returns); "
                 "distinct = scenario; non-trivial = all")
     if not chk.prepare():
         return
@@ -29,8 +29,9 @@ def teardown(chk):
     """Real sockets, multi-thread runtime dropped at seeded moments with handles alive."""
     quick = chk.tier == "quick"
     cases = []
-    for variant in ("connected", "idle", "shutdown-in-progress", "after-shutdown", "rebind"):
-        cases.append("teardown %s %d %d" % (variant, 40 if quick else 400, chk.rng.randrange(1 << 30)))
+    for variant in ("connected", "idle", "shutdown-in-progress", "after-shutdown", "rebind", "busy"):
+        runs = (40 if quick else 400) if variant != "busy" else (16 if quick else 100)
+        cases.append("teardown %s %d %d" % (variant, runs, chk.rng.randrange(1 << 30)))
     outs = run_impl("teardown", cases, shards=len(cases), timeout=1200)
     for c, a in zip(cases, outs):
         chk.evaluations += 1
@@ -47,6 +48,10 @@ def teardown(chk):
         if int(f.get("hangs", 0)) > 0:
             chk.monitor_fail("runtime teardown with live handles (%s): %s of %s runs hung" % (c.split()[1], f["hangs"], f["runs"]),
                              dict(case=c, impl=a), cls="teardown-hang")
+        if int(f.get("clones_left", 0)) > 0:
+            chk.monitor_fail("shutdown() returned Ok while clones of the user's service were still alive in %s of %s shutdowns issued with a request inside a handler's blocking section" % (f["clones_left"], f["busy_shutdowns"]), dict(case=c, impl=a))
+        if c.split()[1] == "busy":
+            chk.count("shutdowns-with-a-handler-mid-poll", int(f.get("busy_shutdowns", 0)))
         if int(f.get("rebind_failures", 0)) > 0:
             chk.monitor_fail("socket address still bound 1.5 s after shutdown returned, with the handle alive, in %s of %s runs" % (f["rebind_failures"], f["runs"]), dict(case=c, impl=a))
         if int(f.get("rebind_transient", 0)) > 0:
